@@ -17,6 +17,7 @@ import (
 	"fmt"
 	sqlite3 "github.com/mattn/go-sqlite3"
 	"github.com/transparency-dev/witness/internal/feeder"
+	"golang.org/x/mod/sumdb/note"
 	"io"
 	"net/http"
 	"net/url"
@@ -332,6 +333,19 @@ func injected(kind string) error {
 	return errors.New("injected storage failure (" + kind + ")")
 }
 
+// failingSigner is a witness key whose signing operation fails when told to.
+type failingSigner struct {
+	note.Signer
+	fail func() bool
+}
+
+func (f failingSigner) Sign(msg []byte) ([]byte, error) {
+	if f.fail() {
+		return nil, errors.New("injected: signing key unavailable")
+	}
+	return f.Signer.Sign(msg)
+}
+
 // ---- storage seam, interface level
 
 type simP struct {
@@ -447,6 +461,9 @@ func (y *simW) Set(b []byte) error {
 	err := y.in.Set(b)
 	if err == nil {
 		y.e.recordSet(y.id, b)
+		// a second scheduling point AFTER the write took effect: whatever the caller does next with the written value (fill
+		// a cache, publish it, count it) can then happen after another task's complete update
+		y.e.seam("W.Set.ret", y.id)
 	} else {
 		y.e.mu.Lock()
 		y.e.stats.Probes["set_refused_by_store"]++
@@ -698,6 +715,9 @@ func (e *Engine) execOp(idx int, task string, invokeEvent int) {
 			VFSSetFail(-1, -1, 0)
 		}
 		uctx, ucancel := context.WithCancel(ctx)
+		if op.Ms == -1 {
+			ucancel() // the caller's context has already ended when the request arrives (a client that went away, an expired round)
+		}
 		e.mu.Lock()
 		rec.cancel = ucancel
 		e.mu.Unlock()
@@ -1223,6 +1243,29 @@ func executeInBubble(t *testing.T, plan *Plan) (res *RunResult) {
 		if err != nil {
 			res.Infra = append(res.Infra, "signers: "+err.Error())
 			return
+		}
+		if k := e.plan.Cfg.Extra["signfail"]; k > 0 {
+			// one of this witness's keys (signfail_key) is out of order from its k-th signing operation on, for signfail_len
+			// operations (a key held in an HSM or by a remote signer): an update must then be refused as a whole, never released
+			// with some of the configured keys missing
+			var n atomic.Int64
+			down := int(e.plan.Cfg.Extra["signfail_key"]) % len(signers)
+			span := max(1, e.plan.Cfg.Extra["signfail_len"])
+			for i, s := range signers {
+				if i != down {
+					continue
+				}
+				signers[i] = failingSigner{Signer: s, fail: func() bool {
+					c := n.Add(1)
+					hit := c >= k && c < k+span
+					if hit {
+						e.mu.Lock()
+						e.stats.Fired["signer/fail"]++
+						e.mu.Unlock()
+					}
+					return hit
+				}}
+			}
 		}
 		e.seamP = simP{in: e.inner, e: e}
 		wit, err := witness.New(witness.Opts{Persistence: e.seamP, Signers: signers, KnownLogs: known})
